@@ -126,6 +126,9 @@ def _forbid_control(m_body, what):
         raise Unsupported("%s: closure body contains return/break/continue/? - rule not applicable" % what)
 
 
+N1_VALUE_RECEIVERS = set()   # receivers that are local VALUES (auto-ref by the method call), set from the contract (@n1-value)
+
+
 def n1_map_with_mut(body, log):
     """N1: R.map_with_mut(|P| BODY)  ==>  { let __r = &mut *R; let P = __r.take(); let __v = BODY; *__r = __v; }"""
     while True:
@@ -149,7 +152,8 @@ def n1_map_with_mut(body, log):
         param = body[ps:pe].strip()
         cbody = body[bs:be]
         _forbid_control(m[bs:be], "N1")
-        new = "{ let __r = &mut *%s; let %s = __r.take(); let __v = %s; *__r = __v; }" % (recv, param, cbody)
+        borrow = ("&mut %s" if recv in N1_VALUE_RECEIVERS else "&mut *%s") % recv
+        new = "{ let __r = %s; let %s = __r.take(); let __v = %s; *__r = __v; }" % (borrow, param, cbody)
         body = body[:rs] + new + body[close_p + 1:]
         log.append("N1")
 
@@ -599,7 +603,9 @@ RULES = {
 DEFAULT_ORDER = ["N8", "N4", "N18", "N1", "N2", "N14", "N10", "N12", "N13", "N3", "N5", "N17"]
 
 
-def normalise(body, rules=None):
+def normalise(body, rules=None, n1_values=()):
+    global N1_VALUE_RECEIVERS
+    N1_VALUE_RECEIVERS = set(n1_values)
     log = []
     body, nlog = strip_logging(body)
     for r in (rules if rules is not None else DEFAULT_ORDER):
